@@ -383,6 +383,12 @@ func genC02(tier string, seed int64) (*Family, error) {
 		{"injected_loop_var", []*pstmt{{kind: "for", lv: "S.N", bound: "n", body: []*pstmt{o(1), {kind: "if", cond: c(2), body: []*pstmt{{kind: "return", rhs: "x"}}}, as("x", "+=", "1")}}, o(3)}},
 		{"injected_loop_var_nested_return", []*pstmt{{kind: "for", lv: "S.N", bound: "3", body: []*pstmt{{kind: "forrange", lv: "p", body: []*pstmt{{kind: "if", cond: c(1), body: []*pstmt{{kind: "return", rhs: "y"}}}, as("y", "+=", "1")}}, o(2)}}, o(3)}},
 		{"injected_loop_var_break_continue", []*pstmt{{kind: "for", lv: "S.N", bound: "3", body: []*pstmt{{kind: "if", cond: c(1), body: []*pstmt{{kind: "continue"}}}, {kind: "if", cond: c(2), body: []*pstmt{{kind: "break"}}}, o(3)}}, o(4)}},
+		{"break_in_elseif", []*pstmt{{kind: "for", lv: "i", bound: "n", body: []*pstmt{o(1), {kind: "if", cond: c(2), body: []*pstmt{o(3)}, elifs: []pelif{{c(4), []*pstmt{{kind: "break"}}}}, hasEl: true, els: []*pstmt{o(5)}}, as("x", "+=", "1"), o(6)}}, o(7)}},
+		{"continue_in_elseif", []*pstmt{{kind: "forrange", lv: "p", body: []*pstmt{o(1), {kind: "if", cond: c(2), body: []*pstmt{o(3)}, elifs: []pelif{{c(4), []*pstmt{o(8)}}, {c(5), []*pstmt{{kind: "continue"}}}}}, as("y", "+=", "2"), o(6)}}, o(7)}},
+		{"break_continue_in_else", []*pstmt{{kind: "for", lv: "i", bound: "3", body: []*pstmt{{kind: "if", cond: c(1), body: []*pstmt{o(2)}, hasEl: true, els: []*pstmt{{kind: "if", cond: c(3), body: []*pstmt{{kind: "break"}}, hasEl: true, els: []*pstmt{{kind: "continue"}}}}}, o(4)}}, o(5)}},
+		{"nested_elseif_break_inner_only", []*pstmt{{kind: "for", lv: "i", bound: "2", body: []*pstmt{{kind: "for", lv: "j", bound: "2", body: []*pstmt{{kind: "if", cond: c(1), body: []*pstmt{o(2)}, elifs: []pelif{{c(3), []*pstmt{{kind: "break"}}}}}, o(4)}}, o(5)}}, o(6)}},
+		{"range_key_after_loop", []*pstmt{{kind: "forrange", lv: "p", body: []*pstmt{o(1), {kind: "if", cond: c(2), body: []*pstmt{{kind: "break"}}}}}, as("y", "=", "p"), o(3), {kind: "forrange", lv: "q", body: []*pstmt{o(4)}}, as("x", "=", "q")}},
+		{"for_var_after_loop", []*pstmt{{kind: "for", lv: "i", bound: "n", body: []*pstmt{{kind: "if", cond: c(1), body: []*pstmt{{kind: "break"}}}, o(2)}}, as("x", "=", "i"), {kind: "if", cond: pcond{kind: "cmp", l: "i", op: ">", r: "1"}, body: []*pstmt{as("y", "=", "i")}}}},
 		{"if_no_else", []*pstmt{{kind: "if", cond: c(1), body: []*pstmt{o(2)}}, {kind: "if", cond: pcond{kind: "cmp", l: "x", op: "==", r: "0"}, body: []*pstmt{o(3)}, hasEl: true, els: []*pstmt{o(4)}}, o(5)}},
 	}
 	for _, h := range hand {
